@@ -22,6 +22,21 @@ use crate::{
 
 use super::KDBX4InnerHeader;
 
+/// Read one header entry `(entry_type: u8, entry_length: u32, entry_buffer: [u8; entry_length])` starting at `pos`.
+/// Returns the entry type, the entry buffer and the position after the entry, or `None` if the data ends first.
+fn read_header_entry(data: &[u8], pos: usize) -> Option<(u8, &[u8], usize)> {
+    let entry_type = *data.get(pos)?;
+    let entry_length = LittleEndian::read_u32(data.get(pos + 1..pos + 5)?) as usize;
+    let end = (pos + 5).checked_add(entry_length)?;
+    let entry_buffer = data.get(pos + 5..end)?;
+    Some((entry_type, entry_buffer, end))
+}
+
+/// Read a little-endian u32 header value, or `None` if the entry buffer is too short for one.
+fn read_u32_entry(entry_buffer: &[u8]) -> Option<u32> {
+    entry_buffer.get(0..4).map(LittleEndian::read_u32)
+}
+
 impl From<&[u8]> for HeaderAttachment {
     fn from(data: &[u8]) -> Self {
         let flags = data[0];
@@ -61,6 +76,9 @@ pub(crate) fn decrypt_kdbx4(
     //      header_sha256       - A Sha256 hash of header_data (for verification of header integrity)
     //      header_hmac         - A HMAC of the header_data (for verification of the key_elements)
     //      hmac_block_stream   - A HMAC-verified block stream of encrypted and compressed blocks
+    if data.len() < inner_header_start + 64 {
+        return Err(DatabaseIntegrityError::InvalidFixedHeader { size: data.len() }.into());
+    }
     let header_data = &data[0..inner_header_start];
     let header_sha256 = &data[inner_header_start..(inner_header_start + 32)];
     let header_hmac = &data[(inner_header_start + 32)..(inner_header_start + 64)];
@@ -156,11 +174,12 @@ fn parse_outer_header(data: &[u8]) -> Result<(KDBX4OuterHeader, usize), Database
         //   entry_buffer: [u8; entry_length]       // the entry buffer
         // )
 
-        let entry_type = data[pos];
-        let entry_length: usize = LittleEndian::read_u32(&data[pos + 1..(pos + 5)]) as usize;
-        let entry_buffer = &data[(pos + 5)..(pos + 5 + entry_length)];
+        let (entry_type, entry_buffer, next_pos) =
+            read_header_entry(data, pos).ok_or_else(|| DatabaseIntegrityError::IncompleteOuterHeader {
+                missing_field: "End of header".into(),
+            })?;
 
-        pos += 5 + entry_length;
+        pos = next_pos;
 
         match entry_type {
             HEADER_END => {
@@ -174,9 +193,11 @@ fn parse_outer_header(data: &[u8]) -> Result<(KDBX4OuterHeader, usize), Database
             }
 
             HEADER_COMPRESSION_ID => {
-                compression_config = Some(CompressionConfig::try_from(LittleEndian::read_u32(
-                    &entry_buffer,
-                ))?);
+                let compression_id =
+                    read_u32_entry(entry_buffer).ok_or_else(|| DatabaseIntegrityError::IncompleteOuterHeader {
+                        missing_field: "Compression ID".into(),
+                    })?;
+                compression_config = Some(CompressionConfig::try_from(compression_id)?);
             }
 
             HEADER_MASTER_SEED => master_seed = Some(entry_buffer.to_vec()),
@@ -239,24 +260,33 @@ fn parse_inner_header(
     let mut header_attachments = Vec::new();
 
     loop {
-        let entry_type = data[pos];
-        let entry_length: usize = LittleEndian::read_u32(&data[pos + 1..(pos + 5)]) as usize;
-        let entry_buffer = &data[(pos + 5)..(pos + 5 + entry_length)];
+        let (entry_type, entry_buffer, next_pos) =
+            read_header_entry(data, pos).ok_or_else(|| DatabaseIntegrityError::IncompleteInnerHeader {
+                missing_field: "End of header".into(),
+            })?;
 
-        pos += 5 + entry_length;
+        pos = next_pos;
 
         match entry_type {
             INNER_HEADER_END => break,
 
             INNER_HEADER_RANDOM_STREAM_ID => {
-                inner_random_stream = Some(InnerCipherConfig::try_from(LittleEndian::read_u32(
-                    &entry_buffer,
-                ))?);
+                let stream_id =
+                    read_u32_entry(entry_buffer).ok_or_else(|| DatabaseIntegrityError::IncompleteInnerHeader {
+                        missing_field: "Inner random stream".into(),
+                    })?;
+                inner_random_stream = Some(InnerCipherConfig::try_from(stream_id)?);
             }
 
             INNER_HEADER_RANDOM_STREAM_KEY => inner_random_stream_key = Some(entry_buffer.to_vec()),
 
             INNER_HEADER_BINARY_ATTACHMENTS => {
+                if entry_buffer.is_empty() {
+                    return Err(DatabaseIntegrityError::IncompleteInnerHeader {
+                        missing_field: "Binary attachment flags".into(),
+                    }
+                    .into());
+                }
                 let header_attachment = HeaderAttachment::from(entry_buffer);
                 header_attachments.push(header_attachment);
             }
